@@ -1,5 +1,6 @@
 import HpoProofs.BinaryLoad
 import HpoProofs.LoadRefine
+import HpoProofs.LoadRun
 /-!
 # C08 — the decoder honours layouts v1–v3 and never accepts truncated or extended files
 
@@ -20,10 +21,16 @@ is shorter than 0x48504f00 bytes.
 `projFacts fv f`: what version `fv` carries — v1 drops release version, obsolete flags, replacements
 and the ORPHA section, v2 drops the ORPHA section.
 
+`WFRecords f` (`HpoProofs/LoadRun.lean`): a well-formed record set — term records with the same id
+agree, parent records mention terms of the file only, no is_a cycle, record ids distinct inside each
+gene / disease section, records list terms of the file only, at most 65 535 records per section, both
+root terms present.  `C08_file_is_builder_run`: on such a file `from_bytes` is a checked Builder-API
+run; `C08_record_order`: the loaded ontology does not depend on the record order.
+
 All statements are for ALL record sets / byte strings, no size bound.
 -/
 namespace Hpo.C08
-open Hpo Hpo.Binary Hpo.Proto
+open Hpo Hpo.Binary Hpo.Proto Hpo.C01 Hpo.Text
 
 /-! ### framing -/
 
@@ -102,13 +109,13 @@ theorem C08_decode_terms (fv : Nat) (hfv : fv = 2 ∨ fv = 3) (f : RawFacts) (h 
 section permuted is a valid file, and decodes to exactly the permuted records — none lost,
 duplicated or attributed to another section.
 
-Full statement (NOT proved here in this generality): `decodeBytes (encodeRaw fv g)` and
-`decodeBytes (encodeRaw fv f)` are observationally equal ontologies.  Proved for v3 files whose
-records are those of a well-formed ontology: `C08_record_order_reachable` below.  Missing: v1 / v2
-files and arbitrary record sets — invariance of `Onto.loadFacts` under permutation of its record
-lists needs hypotheses on the records (with the same record id twice in a section the later record
-replaces the earlier one while the links of both stay, so the result does depend on the order); the
-correspondence check compares the two loads on every generated file (`same 0 1`). -/
+This is the part that holds for ANY record set, without a hypothesis on the records (the name keeps
+its historical suffix).  The full statement — `decodeBytes (encodeRaw fv g)` and
+`decodeBytes (encodeRaw fv f)` are observationally equal ontologies — is `C08_record_order` below, for
+v1 / v2 / v3 files and arbitrary well-formed record sets (`WFRecords`); it cannot hold without
+hypotheses on the records: with the same record id twice in a section the later record replaces the
+earlier one while the links of both stay, so the result does depend on the order
+(`C08_duplicate_record_id_counterexample`). -/
 theorem C08_record_order_partial (fv : Nat) (f g : RawFacts) (h : FileOK fv f) (hp : FactsPerm f g) :
     FileOK fv g ∧ decodeRaw fv (encBody fv g) = .ok (projFacts fv g) ∧
     FactsPerm (projFacts fv f) (projFacts fv g) ∧
@@ -139,6 +146,60 @@ theorem C08_record_order_reachable (o : Onto) (hr : Reachable o) (f g : RawFacts
     a.version.trans b.version.symm, fun j => (a.terms j).trans (b.terms j).symm,
     fun k r => (a.recs k r).trans (b.recs k r).symm, a.categories.trans b.categories.symm,
     a.modifier.trans b.modifier.symm⟩
+
+/-- **`from_bytes` of a well-formed file is a Builder run.** Let `f` be ANY record set that is
+encodable in format version `fv` (`FileOK`) and well formed as far as the file carries it
+(`WFRecords (projFacts fv f)`, `HpoProofs/LoadRun.lean`; `WFRecords f` suffices: `WFRecords.proj`):
+two term records with the same id agree; the term of every parent record and every parent it lists
+are terms of the file; some rank decreases along is_a (no cycle); record ids are distinct inside the
+gene / OMIM / ORPHA section; every term a record lists is a term of the file; at most 65 535 records
+per section; `HP:0000001` and `HP:0000118` are terms.  No ontology is assumed to have written `f`.
+Then `from_bytes` succeeds, and returns literally the ontology `d` that the checked Builder API
+produces from the records in file order — `new_term` per term record, `add_parent` per entry of a
+parent record, `connect_all_terms`, per gene / disease record `add_gene` / `add_*_disease` followed by
+`annotate_*` for each listed term (deduplicated, ascending), `calculate_information_content`,
+`build_with_defaults`, none of them failing — with the release version the file carries. -/
+theorem C08_file_is_builder_run (fv : Nat) (f : RawFacts) (h : FileOK fv f) (W : WFRecords (projFacts fv f)) :
+    ∃ a oc r d,
+      runB ((fileFacts (projFacts fv f)).map TermFact.op ++ (fileEdges (projFacts fv f)).map edgeOp) {} = some a ∧
+      Acyclic a ∧ a.connectAll = .ok oc ∧
+      (runA (fileAOps (projFacts fv f)) oc).calcIc = .ok r ∧ r.buildWithDefaults = .ok d ∧
+      decodeBytes (encodeRaw fv f) = .ok { d with version := (projFacts fv f).version } := by
+  have hsmall : ∀ t ∈ (projFacts fv f).terms, t.id < maxId := by
+    intro t ht
+    obtain ⟨t0, ht0, rfl⟩ := List.mem_map.1 ht
+    rw [projTerm_id]; exact (h.facts.terms t0 ht0).1
+  obtain ⟨a, oc, r, d, B, hl⟩ := loadFacts_ok (projFacts fv f) (bareRecs_projFacts fv f) hsmall W
+  exact ⟨a, oc, r, d, B.run, B.acyclic, B.connect, B.ic, B.build,
+    ((C08_decode_v fv f h).2.2.trans (loadFacts_projFacts fv f)).trans hl⟩
+
+/-- **C08_record_order — the loaded ontology does not depend on the record order.** For every format
+version `fv ∈ {1,2,3}` and ANY encodable record set `f` that is well formed as far as the file
+carries it (`WFRecords (projFacts fv f)`, see `C08_file_is_builder_run`; in particular every file
+`as_bytes` writes for a well-formed ontology, but no ontology is assumed), and every `g` that has the
+same records in another order inside the five sections (`FactsPerm`): both files load, and the two
+ontologies agree in every observation — release version, every term lookup (name, obsolete flag,
+replacement, parents, children, ancestors, linked genes / OMIM / ORPHA diseases, the three
+information-content pairs), every record lookup of the three kinds (name, direct terms), categories
+and modifier.  Only the iteration order of terms and records may differ.  (Route: both loads are
+Builder runs over permuted facts, `C16_terms`, `C16_records_and_terms`, `C16_ic_and_defaults`.)
+The hypothesis "record ids distinct inside a section" cannot be dropped:
+`C08_duplicate_record_id_counterexample`. -/
+theorem C08_record_order (fv : Nat) (f g : RawFacts) (h : FileOK fv f) (hp : FactsPerm f g)
+    (W : WFRecords (projFacts fv f)) :
+    ∃ o1 o2, decodeBytes (encodeRaw fv f) = .ok o1 ∧ decodeBytes (encodeRaw fv g) = .ok o2 ∧
+      o1.version = o2.version ∧ (∀ j, getT o1.terms j = getT o2.terms j) ∧
+      (∀ k r, getR (o1.recs k) r = getR (o2.recs k) r) ∧
+      o1.categories = o2.categories ∧ o1.modifier = o2.modifier := by
+  have hsmall : ∀ t ∈ (projFacts fv f).terms, t.id < maxId := by
+    intro t ht
+    obtain ⟨t0, ht0, rfl⟩ := List.mem_map.1 ht
+    rw [projTerm_id]; exact (h.facts.terms t0 ht0).1
+  obtain ⟨o1, o2, l1, l2, S, _, _⟩ := loadFacts_perm (projFacts fv f) (projFacts fv g)
+    (bareRecs_projFacts fv f) (bareRecs_projFacts fv g) hsmall W (projFacts_perm fv hp)
+  exact ⟨o1, o2, ((C08_decode_v fv f h).2.2.trans (loadFacts_projFacts fv f)).trans l1,
+    ((C08_decode_v fv g (h.perm hp)).2.2.trans (loadFacts_projFacts fv g)).trans l2,
+    S.version, S.terms, S.recs, S.categories, S.modifier⟩
 
 /-- EVERY proper prefix of a valid file — every truncation offset `0 .. len-1`, no bound on the
 file — is rejected (error or panic), never returned as an ontology.  Framing argument: a cut
@@ -202,5 +263,56 @@ example : (encodeRaw 3 sample).length = 209 ∧ (encodeRaw 1 sample).length = 16
 example : (projFacts 1 sample).terms.map (·.obsolete) = [false, false, false] ∧
     (projFacts 1 sample).orpha = [] ∧ (projFacts 2 sample).orpha = [] ∧
     (projFacts 3 sample).orpha = sample.orpha := by decide
+
+/-! ### non-vacuity of `C08_record_order` / `C08_file_is_builder_run`, and why record ids must be distinct -/
+
+/-- `sample` (three terms `HP:1 ← HP:118 ← HP:7`, a gene on two terms, an OMIM disease, an ORPHA
+disease without terms) is a well-formed record set … -/
+theorem C08_sample_wf : WFRecords sample :=
+  { termsFun := by decide
+    parentsClosed := by unfold IsTerm; decide
+    acyclic := ⟨fun j => if j = 1 then 0 else if j = 118 then 1 else 2, by decide⟩
+    recIds := by intro k; cases k <;> decide
+    recTerms := by intro k; cases k <;> (unfold IsTerm; decide)
+    fit := by intro k; cases k <;> decide
+    root := by unfold IsTerm; decide
+    phenotype := by unfold IsTerm; decide }
+
+/-- … `sampleRev` has the same records with every section in reverse order -/
+def sampleRev : RawFacts :=
+  { version := sample.version, terms := sample.terms.reverse, parents := sample.parents.reverse,
+    genes := sample.genes.reverse, omim := sample.omim.reverse, orpha := sample.orpha.reverse }
+
+theorem C08_sample_perm : FactsPerm sample sampleRev ∧ sample.terms ≠ sampleRev.terms :=
+  ⟨⟨rfl, (List.reverse_perm _).symm, (List.reverse_perm _).symm, (List.reverse_perm _).symm,
+    (List.reverse_perm _).symm, (List.reverse_perm _).symm⟩, by decide⟩
+
+/-- all hypotheses of `C08_record_order` hold together, in each of the three format versions -/
+example (fv : Nat) (hfv : fv = 1 ∨ fv = 2 ∨ fv = 3) :
+    ∃ o1 o2, decodeBytes (encodeRaw fv sample) = .ok o1 ∧ decodeBytes (encodeRaw fv sampleRev) = .ok o2 ∧
+      (∀ j, getT o1.terms j = getT o2.terms j) := by
+  obtain ⟨o1, o2, l1, l2, _, ht, _⟩ := C08_record_order fv sample sampleRev (C08_nonvacuous_sample fv hfv)
+    C08_sample_perm.1 (C08_sample_wf.proj fv)
+  exact ⟨o1, o2, l1, l2, ht⟩
+
+/-- two gene records with the SAME id 5 (everything else as in `sample`), in the two possible orders -/
+def dupGenes : List Rec := [{ id := 5, name := "A".toList, hpos := [7] }, { id := 5, name := "B".toList, hpos := [118] }]
+def dupA : RawFacts := { sample with genes := dupGenes }
+def dupB : RawFacts := { sample with genes := dupGenes.reverse }
+
+set_option maxRecDepth 100000 in
+/-- **Why record ids must be distinct inside a section.** `dupA` and `dupB` differ only in the order of
+two gene records with the same id. Both load; `HashMap::insert` keeps the LATER record (name and
+term list) while the links of BOTH records stay on the terms — so the loaded ontologies differ
+(`gene 5` is `B` on `[118]` in one and `A` on `[7]` in the other), and neither is a Builder state:
+`HP:0000007` carries gene 5 although in the first one gene 5 does not list it. -/
+theorem C08_duplicate_record_id_counterexample :
+    FactsPerm dupA dupB ∧
+    (Onto.loadFacts 3 dupA).toOption.map (fun o => (getR o.genes 5, (getT o.terms 7).map (·.genes))) =
+      some (some { id := 5, name := "B".toList, hpos := [118] }, some [5]) ∧
+    (Onto.loadFacts 3 dupB).toOption.map (fun o => (getR o.genes 5, (getT o.terms 7).map (·.genes))) =
+      some (some { id := 5, name := "A".toList, hpos := [7] }, some [5]) := by
+  refine ⟨⟨rfl, List.Perm.refl _, List.Perm.refl _, (List.reverse_perm _).symm, List.Perm.refl _,
+    List.Perm.refl _⟩, by decide, by decide⟩
 
 end Hpo.C08
